@@ -40,12 +40,18 @@ def ll_corr(x):
     return -0.5 * float(x @ _PREC @ x)
 
 
+def ll_periodic_shift(x):
+    # the same with the mode one tenth of a period away from the seam: a biased kernel shows in E[sin]
+    return 2.0 * math.cos(2 * math.pi * (x[0] + 4.0) / 10.0) - 0.5 * float(x[1] ** 2) / S ** 2
+
+
 TARGETS = {
+    "periodic_shift": dict(like=ll_periodic_shift, logz=None, mean1=0.0, var1=S ** 2, kw={"periodic": [0]}, phase0=4.0),
     "corr": dict(like=ll_corr, logz=math.log(2 * math.pi * S ** 2 * math.sqrt(1 - RHO ** 2) / 100.0), mean1=0.0, var1=S ** 2, kw={}),
     "half": dict(like=ll_half, logz=math.log(0.5 * 2 * math.pi * S ** 2 / 100.0), mean1=0.0, var1=S ** 2, kw={}),
     "interior": dict(like=ll_interior, logz=math.log(2 * math.pi * S ** 2 / 100.0), mean1=0.0, var1=S ** 2, kw={}),
     "edge": dict(like=ll_edge, logz=math.log(2 * math.pi * S ** 2 / 200.0), mean1=0.0, var1=S ** 2, kw={}),
-    "periodic": dict(like=ll_periodic, logz=None, mean1=0.0, var1=S ** 2, kw={"periodic": [0]}),
+    "periodic": dict(like=ll_periodic, logz=None, mean1=0.0, var1=S ** 2, kw={"periodic": [0]}, phase0=5.0),
 }
 
 
@@ -62,7 +68,9 @@ def one(a):
         x, w, l = s.posterior(trim_importance_weights=False)
         m = np.sum(w[:, None] * x, axis=0)
         v = np.sum(w[:, None] * (x - m) ** 2, axis=0)
+        ph = 2 * math.pi * (x[:, 0] + T.get("phase0", 5.0)) / 10.0
         return dict(ok=True, logz=float(s.evidence()[0]), mean=m.tolist(), var=v.tolist(),
+                    circ=[float(np.sum(w * np.cos(ph))), float(np.sum(w * np.sin(ph)))],
                     cov01=float(np.sum(w * (x[:, 0] - m[0]) * (x[:, 1] - m[1]))))
     except Exception as e:
         return dict(ok=False, err=f"{type(e).__name__}: {e}")
